@@ -61,7 +61,7 @@ def run(ctx):
                     "random.randint replaced by a forced coin (the only source of randomness in measure)",
                     "link stabilizer group <-> Hilbert-space state and the Born rule for stabilizer states: not re-proved; evaluated numerically by oracle_meas on every case"]
     ctx.rule = ("exhaustive: every stabilizer state on 1..%d qubits (closure under H,S,CNOT) in 1+2 generating sets x every position x in-place/destructive x coin 0/1, "
-                "each in-place result re-measured with both coins; the changelog bug shapes; random reference-generated states on 3..8 qubits; raw boolean matrices (model totality); "
+                "each in-place result re-measured with both coins; the changelog bug shapes; wide structured states (GHZ / odd-parity superpositions on 6..8 qubits under layers of S and H on every qubit, several generating sets: row products with +-i imbalance up to 8); random reference-generated states on 3..8 qubits; raw boolean matrices (model totality); "
                 "a case is non-trivial if the tableau after differs from the tableau before; distinct = distinct (input tableau, position, mode, coin)" % nmax)
     common.check_properties_file(ctx)
 
@@ -141,6 +141,37 @@ def run(ctx):
         for inplace in (True, False):
             one_input(n, t, p, inplace, tag="bugshape:" + what)
         ctx.count("bug_shapes")
+
+    # ---- wide structured states: the elimination multiplies rows that meet in many X.Y / Y.Z / Z.X positions, so that the +i/-i imbalance
+    # of a row product reaches +-4, +-6, +-8 (random circuits of this length almost never do) --------------------------------------------
+    def wide_states(n):
+        out = []
+        ghz = O.ref_zero(n)
+        ghz = O.ref_gate(ghz, n, "H", 0)
+        for j in range(1, n):
+            ghz = O.ref_gate(ghz, n, "CNOT", 0, j)
+        # odd-parity superposition (the construction of a demonstration by a reviewer): CNOT(j,1), H(0), CNOT(0,j)
+        odd = O.ref_zero(n)
+        for j in range(2, n):
+            odd = O.ref_gate(odd, n, "CNOT", j, 1)
+        odd = O.ref_gate(odd, n, "H", 0)
+        for j in range(1, n):
+            odd = O.ref_gate(odd, n, "CNOT", 0, j)
+        for base_name, base in (("ghz", ghz), ("odd", odd)):
+            for layers in (["S"], ["S", "H"], ["H", "S"], ["S", "H", "S"], ["H", "S", "H"], ["S", "S", "S", "H"]):
+                t = base
+                for g in layers:
+                    for q in range(n):
+                        t = O.ref_gate(t, n, g, q)
+                out.append((base_name + ":" + "".join(layers), t))
+        return out
+    for n in ((6, 7, 8) if thorough else (6, 7)):
+        for name, t in wide_states(n):
+            for u in [t] + O.generating_sets(t, n, rng, 2 if thorough else 1):
+                for p in ([0, n // 2, n - 1] if not thorough else range(n)):
+                    for inplace in (True, False):
+                        one_input(n, u, p, inplace, tag="wide:" + name)
+            ctx.count("wide_structured_states_n%d" % n)
 
     # ---- random larger states ---------------------------------------------------------------------------------------
     for _ in range(250 if thorough else 40):
